@@ -130,6 +130,9 @@ func c17Exec(op string) string {
 		return "bad-op " + c.err.Error()
 	}
 	notes := []string{}
+	if len(op)%3 == 0 {
+		internShared(m)
+	}
 	before := deepCopy(m)
 	readOnlyBattery(m, path, key, subs...)
 	if !deepEq(before, m) {
@@ -256,7 +259,7 @@ func c17Gen(r *Rng, n int) []string {
 // c17Stress: goroutines decode / encode / query a shared read-only Map and private Maps; every
 // goroutine must see exactly the sequential results.  Built with -race in the thorough tier.
 func c17Stress(r *Rng, tier string, res *Result) {
-	rounds := 3
+	rounds := 6
 	if tier == "thorough" {
 		rounds = 40
 	}
@@ -272,7 +275,15 @@ func c17Stress(r *Rng, tier string, res *Result) {
 		var sb strings.Builder
 		r.render(r.xmlDoc(&g), &sb)
 		doc := []byte(sb.String())
+		// every other round runs under options that were set ONCE beforehand ("package options
+		// left alone" = not changed while the goroutines run)
+		if round%2 == 1 {
+			o := r.decOpt(false)
+			o.KeepSpace = o.KeepSpace || r.Bool()
+			o.apply()
+		}
 		seqWork := func() string {
+			bx, _ := mxj.BeautifyXml(doc, "", " ")
 			m, err := mxj.NewMapXml(doc)
 			s := fmt.Sprint(err != nil)
 			if err == nil {
@@ -285,7 +296,7 @@ func c17Stress(r *Rng, tier string, res *Result) {
 				x, _ := ms.Xml()
 				s += string(x)
 			}
-			return s + readOnlyBattery(shared, path, key, subs...)
+			return s + string(bx) + readOnlyBattery(shared, path, key, subs...)
 		}
 		want := seqWork()
 		const workers = 8
@@ -304,6 +315,7 @@ func c17Stress(r *Rng, tier string, res *Result) {
 			}(w)
 		}
 		wg.Wait()
+		resetOptions()
 		res.ImplOnly += workers
 		for w := 0; w < workers; w++ {
 			if got[w] != want {
